@@ -1609,7 +1609,7 @@ def run(ctx: C.Ctx):
                  "var_types; _cpp_type/_default_value_for_type/_annotation_to_type_label enumerated; _merge_return_types/_merge_element_types exhaustive "
                  "over a 9-10 label pool up to length 3 plus random longer lists. non-trivial = distinct (expression, var_types) whose root is not a "
                  "constant/name.  (b) statement programs (assign, aug-assign, if/elif/else, while, for, helper defs with returns and two or more call "
-                 "signatures, calls before the def, while True) -> real parse+emit -> declared C types of globals, loop locals, every emitted function "
+                 "signatures, calls before the def, while True) -> real parse+emit -> declared C types of globals (incl. names first assigned inside `while True:`: sketch globals since the repair of F-C05-looplocal-reinit; the list of loop() locals must be empty on both sides), every emitted function "
                  "variant (return type, parameters, locals) parsed from the declaration lines of the sketch = Lang/Decl.v run_items; non-trivial = "
                  "accepted programs with >= 2 declarations.  (c) runnable programs inside the guard (names receive bool/int/float values in all orders "
                  "that only ever go down from the declaring kind, at top level, in branches, loops, the main loop, helper parameters via several call "
